@@ -2,6 +2,7 @@ import Driver.Journal
 import Driver.Config
 import Driver.Tx
 import Driver.Kv
+import Driver.Db
 open Driver
 
 structure DState where
@@ -9,6 +10,7 @@ structure DState where
   loaded : Fjall.Bytes := []
   tx : TxSession := {}
   kv : Fjall.Mvcc.Kv := {}
+  db : Fjall.Db.DbL := {}
 
 def step (s : DState) (line : String) : DState × String :=
   let ws := words line
@@ -23,7 +25,10 @@ def step (s : DState) (line : String) : DState × String :=
       | none =>
         match kvCmd s.kv ws with
         | some (k, out) => ({ s with kv := k }, out)
-        | none => (s, "bad-op")
+        | none =>
+          match dbCmd s.db ws with
+          | some (d, out) => ({ s with db := d }, out)
+          | none => (s, "bad-op")
 
 partial def loop (h : IO.FS.Stream) (out : IO.FS.Stream) (s : DState) : IO Unit := do
   let line ← h.getLine
